@@ -337,11 +337,15 @@ fn probe_transports(srv: &TServer, tag: &str) -> Option<(String, String)> {
         Ok(msgs) if msgs.iter().any(|m| m.contains("value w1")) => {}
         other => return Some((format!("C10|transport|ws-not-served|{}", tag), format!("WebSocket probe: {:?}", other))),
     }
-    if srv.node.dbs.replication_sender.is_closed() {
-        return Some((format!("C10|transport|replication-loop-dead|{}", tag), "the replication loop's channel is closed".into()));
-    }
-    if srv.node.dbs.replication_supervisor_sender.is_closed() {
-        return Some((format!("C10|transport|supervisor-loop-dead|{}", tag), "the supervisor's channel is closed".into()));
+    if srv.node.dbs.replication_sender.is_closed() || srv.node.dbs.replication_supervisor_sender.is_closed() {
+        // (here both service loops run on one background thread, as they do on the main thread of the real binary: a
+        // panic in one ends both, and it may be noticed only by the probe of a later case)
+        let (msg, loc) = (crate::node::last_panic_msg(), last_panic_loc());
+        if msg.contains("Re-adding a secoundary that alrady exists") {
+            // the listed re-join finding, reached over a real transport: same panic site, same signature as the in-process engine
+            return Some(("C10|supervisor-loop-dead|join|replication_ops.rs|supervisor loop ended".to_string(), format!("over {}: the replication supervisor died at {} ({})", tag, loc, msg)));
+        }
+        return Some((format!("C10|transport|service-loops-dead|{}", tag), format!("the service loops' channels are closed; last panic: {} at {}", msg, loc)));
     }
     if let Some(l) = srv.node.poisoned() {
         return Some((format!("C10|transport|poisoned|{}", tag), format!("lock {} is poisoned", l)));
